@@ -170,6 +170,21 @@ Section WSP.
     intros Hm. induction ms as [|m ms IH]; intros tx; cbn [Window.tx_run fst snd]; [reflexivity|].
     rewrite IH. unfold Window.ws_write. rewrite Hm. reflexivity.
   Qed.
+  Lemma tx_window_is_suffix0 c ms : mode_of c = MTakeover ->
+    tx_win (fst (tx_run c tx0 ms)) = trim (window_size c) (concat ms).
+  Proof.
+    intros Hm. apply (tx_window_is_suffix c ms Hm tx0 []).
+    rewrite trim_skipn. reflexivity.
+  Qed.
+
+  Lemma counters0 c ms :
+    let wires := snd (tx_run c tx0 ms) in
+    tx_cnt (fst (tx_run c tx0 ms)) = fold_left (fun a w => add64 a (lenN w)) wires 0 /\
+    rx_cnt (fst (rx_run c rx0 wires)) = fold_left (fun a w => add64 a (lenN w)) wires 0.
+  Proof. apply (counters c ms tx0 rx0). reflexivity. Qed.
+
+  Lemma off_wire0 c ms : mode_of c = MOff -> snd (tx_run c tx0 ms) = ms.
+  Proof. intros H. exact (off_wire_is_message c ms H tx0). Qed.
 End WSP.
 
 (* wins_after (the judge's DEFLATE-free dictionary evolution) is the writer's dictionary *)
